@@ -618,9 +618,14 @@ def _worker_shape(prog, cy, m):
             ret_ar.add(len(n.value.elts))
     inner = None
     alloc = None
+    # the inner result: a name returned inside the outer tuple that is itself
+    # bound to a tuple somewhere in the worker (`result = (x, start_i, end_i)`)
+    returned = {e.id for n in ast.walk(fi.node) if isinstance(n, ast.Return)
+                and isinstance(n.value, ast.Tuple) for e in n.value.elts
+                if isinstance(e, ast.Name)}
     for n in ast.walk(fi.node):
         if isinstance(n, ast.Assign) and len(n.targets) == 1 and \
-                isinstance(n.targets[0], ast.Name) and n.targets[0].id == "result" \
+                isinstance(n.targets[0], ast.Name) and n.targets[0].id in returned \
                 and isinstance(n.value, ast.Tuple):
             inner = n.value
     shape = None
@@ -894,31 +899,37 @@ def q7(run: Run, prog: Program, cy: CyProgram):
     ifn = ifs[0]
     par_src = "\n".join(ast.unparse(s) for s in ifn.body)
     ser_src = "\n".join(ast.unparse(s) for s in ifn.orelse)
+    pm = [c for c in ast.walk(ifn) if isinstance(c, ast.Call)
+          and isinstance(c.func, ast.Attribute) and c.func.attr in ("map", "imap",
+                                                                    "starmap")]
+    # the worker is whatever pool.map applies; the split source is whatever
+    # np.array_split partitions
+    wname = ast.unparse(pm[0].args[0]) if len(pm) == 1 and len(pm[0].args) == 2 \
+        else "worker"
     worker_defs = [n for n in ast.walk(src) if isinstance(n, ast.Assign)
-                   and ast.unparse(n.targets[0]) == "worker"]
+                   and ast.unparse(n.targets[0]) == wname]
     ok = True
     why = []
+    split_src = None
     if len(worker_defs) != 1 or ifn in [a for w in worker_defs
                                         for a in ast.walk(ifn) if a is w]:
         ok = False
         why.append("worker is not defined once before the branch")
-    pm = [c for c in ast.walk(ifn) if isinstance(c, ast.Call)
-          and isinstance(c.func, ast.Attribute) and c.func.attr in ("map", "imap",
-                                                                    "starmap")]
-    if not (len(pm) == 1 and len(pm[0].args) == 2 and
-            ast.unparse(pm[0].args[0]) == "worker"):
+    if not (len(pm) == 1 and len(pm[0].args) == 2):
         ok = False
-        why.append("pool.map does not apply `worker`")
+        why.append("pool.map does not apply a worker to batches")
     else:
         batches = ast.unparse(pm[0].args[1])
         bdef = [n for n in ast.walk(ifn) if isinstance(n, ast.Assign)
                 and ast.unparse(n.targets[0]) == batches]
         if not (len(bdef) == 1 and isinstance(bdef[0].value, ast.Call)
                 and ast.unparse(bdef[0].value.func) == "np.array_split"
-                and ast.unparse(bdef[0].value.args[0]) == "targets"):
+                and bdef[0].value.args):
             ok = False
-            why.append(f"`{batches}` is not np.array_split(targets, ...) - not a "
+            why.append(f"`{batches}` is not np.array_split(<targets>, ...) - not a "
                        f"partition of the targets")
+        else:
+            split_src = ast.unparse(bdef[0].value.args[0])
         # the map result must be summed over axis 0
         sums = [c for c in ast.walk(ifn) if isinstance(c, ast.Call)
                 and ast.unparse(c.func) in ("np.sum", "sum")
@@ -929,10 +940,15 @@ def q7(run: Run, prog: Program, cy: CyProgram):
             ok = False
             why.append("batch results are not summed over axis 0")
     sc = [c for c in ast.walk(ast.Module(body=ifn.orelse, type_ignores=[]))
-          if isinstance(c, ast.Call) and ast.unparse(c.func) == "worker"]
-    if not (len(sc) == 1 and [ast.unparse(a) for a in sc[0].args] == ["targets"]):
+          if isinstance(c, ast.Call) and ast.unparse(c.func) == wname]
+    if not (len(sc) == 1 and split_src is not None and
+            [ast.unparse(a) for a in sc[0].args] == [split_src]):
         ok = False
-        why.append("serial branch does not call worker(targets)")
+        why.append(f"serial branch does not call the worker on the whole "
+                   f"`{split_src}`")
+    if split_src is not None and split_src not in m.params:
+        ok = False
+        why.append(f"`{split_src}` is not the method's target parameter")
     run.oblige("Q7", key + ":split", ok, sample={"where": m.where})
     if not ok:
         run.add("Q7", f"{key}/split", f"{m.module.relpath}:{ifn.lineno}",
